@@ -628,6 +628,22 @@ macro_rules! do_step {
                     Err(e) => err_class(&e).to_string(),
                 }
             }
+            "SMR" => {
+                // set_model with a model that ALREADY carries rules (added through Model::add_policy before the call):
+                // the reconfigured enforcer must end up with the adapter's contents only, like a freshly built one
+                let conf = conf_of_spec(f[1]);
+                match rt.block_on(DefaultModel::from_str(&conf)) {
+                    Ok(mut m) => {
+                        for l in dec_rules(f[2]) {
+                            if l.len() >= 2 {
+                                m.add_policy(&l[0], &l[1], l[2..].to_vec());
+                            }
+                        }
+                        res_unit(rt.block_on($e.set_model(m)))
+                    }
+                    Err(e) => err_class(&e).to_string(),
+                }
+            }
             "SA" => {
                 let a = Boxed(build_adapter(f[1], $cx.tmps, rt));
                 res_unit(rt.block_on($e.set_adapter(a)))
@@ -770,7 +786,7 @@ fn run_history<E: CoreApi + MgmtApi + RbacApi>(e: &mut E, steps: &str, cx: &mut 
             let mut f: Vec<&str> = st.split(':').collect();
             // configuration tracking for the fresh twin
             match f[0] {
-                "SM" => cx.cur_spec = f[1].to_string(),
+                "SM" | "SMR" => cx.cur_spec = f[1].to_string(),
                 "SA" => cx.cur_adapter = f[1].to_string(),
                 "SR" => cx.rm_max = f[1].parse().unwrap(),
                 "AF" => cx.ufuns.push((dec(f[1]), f[2].to_string())),
